@@ -30,7 +30,7 @@ SETTING_ALIASES = {
     "id_string": ["form_id", "set_form_id", "id_string", "Form_ID"],
     "version": ["version"], "name": ["name"], "instance_name": ["instance_name"], "submission_url": ["submission_url"],
     "public_key": ["public_key"], "auto_send": ["auto_send"], "auto_delete": ["auto_delete"], "style": ["style"],
-    "namespaces": ["namespaces"], "omit_instanceID": ["omit_instanceID"], "instance_xmlns": ["instance_xmlns"],
+    "namespaces": ["namespaces"], "omit_instanceID": ["omit_instanceID", "omit_instanceid", "Omit_InstanceID", "OMIT_INSTANCEID"], "instance_xmlns": ["instance_xmlns"],
     "prefix": ["prefix"], "delimiter": ["delimiter"], "default_language": ["default_language"], "sms_keyword": ["sms_keyword"],
     "instance_id": ["instance_id"],
 }
@@ -44,7 +44,8 @@ VALUES = {
     "public_key": ["MIIBIjANBgkqhkiG9w0BAQEFAAOCAQ8AMIIBCgKCAQEA", "KEY=="],
     "auto_send": ["true", "false", "yes"], "auto_delete": ["true", "false"],
     "style": ["pages", "theme-grid", "pages theme-grid", "pages  theme-grid"],
-    "namespaces": ['ex="http://example.org/ex"', "ex=http://example.org/ex", "ex='http://e.org' esri=\"https://esri.com/xforms\"", "broken", "=nokey", "jr=http://override"],
+    "namespaces": ['ex="http://example.org/ex"', "ex=http://example.org/ex", "ex='http://e.org' esri=\"https://esri.com/xforms\"", "broken", "=nokey", "jr=http://override",
+                   'ex="http://example.org/ns?a=b"', "ex=http://e.org/?x=1&y=2 q=u=v="],
     "omit_instanceID": ["yes", "no", "true", "TRUE", "maybe"],
     "instance_xmlns": ["http://example.org/instance"],
     "prefix": ["P-", "pre"], "delimiter": ["|", ";"],
@@ -59,14 +60,26 @@ def gen_settings(rng, hostile_attr=False):
         del canon["public_key"]
     attribute = {}
     ns_ok = "namespaces" in canon and canon["namespaces"].startswith("ex")
-    for a in rng.sample(["foo", "xyz", "data-kind", "ex:bar", "Foo"], rng.randint(0, 3)) if rng.random() < 0.4 else []:
+    for a in rng.sample(["foo", "xyz", "data-kind", "ex:bar", "Foo", "ex:id", "ex:version", "ex:foo"], rng.randint(0, 4)) if rng.random() < 0.4 else []:
         if a.startswith("ex:") and not ns_ok:
             continue
         attribute[a] = rng.choice(["1", "a b", "<&>", "é"])
     if hostile_attr and rng.random() < 0.5:
         attribute[rng.choice(["id", "version"])] = "HIJACK"
     spelled = {}
+    both_ids = None
+    if rng.random() < 0.12:
+        # both the form_id and the id_string header: form_id's value is the id, id_string's only when the form_id cell is empty
+        a, b = rng.choice(VALUES["id_string"] + [""]), rng.choice(VALUES["id_string"] + [""])
+        if a or b:
+            both_ids = (a, b)
+            canon["id_string"] = a if a else b
     for k, v in canon.items():
+        if k == "id_string" and both_ids:
+            first, second = rng.choice([("form_id", "id_string"), ("id_string", "form_id")])
+            spelled[first] = both_ids[0] if first == "form_id" else both_ids[1]
+            spelled[second] = both_ids[0] if second == "form_id" else both_ids[1]
+            continue
         spelled[rng.choice(SETTING_ALIASES[k])] = v
     for a, v in attribute.items():
         spelled[f"attribute::{a}"] = v
@@ -74,7 +87,12 @@ def gen_settings(rng, hostile_attr=False):
     rng.shuffle(items)
     # the canonical row in the same column order
     inv = {al: k for k, als in SETTING_ALIASES.items() for al in als}
-    canon_ordered = [(inv[h], v) for h, v in items if h in inv]
+    canon_ordered = []
+    for h, v in items:
+        if h in inv and not (both_ids and inv[h] == "id_string" and (inv[h], canon["id_string"]) in canon_ordered):
+            if both_ids and inv[h] == "id_string":
+                v = canon["id_string"]
+            canon_ordered.append((inv[h], v))
     attr_ordered = [(h.split("::", 1)[1], v) for h, v in items if h.startswith("attribute::")]
     return dict(items), canon_ordered, attr_ordered
 
@@ -129,6 +147,15 @@ def canon_text(h, nsmap_len=7):
                         h["instanceName"] if h["instanceName"] is not None else "-"])
 
 
+def dict_of(form):
+    """the dict a reader would deliver: an empty cell is no entry of its row, its column is still a header"""
+    d = forms.as_dict(form)
+    for k, v in list(d.items()):
+        if isinstance(v, list) and not k.endswith("_header") and k != "sheet_names":
+            d[k] = [{h: c for h, c in r.items() if c != ""} for r in v]
+    return d
+
+
 class HeaderOp(Op):
     """the header of real forms against the settings model"""
     name = "D.header"
@@ -155,7 +182,7 @@ class HeaderOp(Op):
             form = {"survey": survey}
             if spelled:
                 form["settings"] = [spelled]
-            st, r = xf.convert_form(forms.as_dict(form), form_name=form_name, default_language=dl)
+            st, r = xf.convert_form(dict_of(form), form_name=form_name, default_language=dl)
             if st == "ok":
                 exp = canon_text(extract_header(r.xform))
             elif st == "pyxerr" and "Cannot omit instanceID" in str(r):
@@ -210,9 +237,13 @@ def expected_header(canon, attribute, form_name, file_stem):
     e["body_class"] = s.get("style")
     decl = {}
     for tok in s.get("namespaces", "").split():
-        parts = tok.split("=")
-        if len(parts) == 2 and parts[0] and f"xmlns:{parts[0]}" not in NSMAP_STD:
-            decl[f"xmlns:{parts[0]}"] = parts[1].replace('"', "").replace("'", "")
+        if "=" not in tok:
+            continue
+        prefix, uri = tok[:tok.index("=")], tok[tok.index("=") + 1:]      # the first "=" ends the prefix; the URI may hold more
+        if prefix and f"xmlns:{prefix}" not in NSMAP_STD and f"xmlns:{prefix}" not in decl:
+            decl[f"xmlns:{prefix}"] = uri.replace('"', "").replace("'", "")
+        elif prefix and f"xmlns:{prefix}" in decl:
+            decl[f"xmlns:{prefix}"] = uri.replace('"', "").replace("'", "")
     e["ns"] = list(decl.items())
     omit = s.get("omit_instanceID") in YES
     e["instanceID"] = None if omit else s.get("instance_id", "uid")
@@ -232,9 +263,10 @@ def run_case(rng):
         survey.append({"type": "end group"})
     form = {"survey": survey}
     if spelled:
-        form["settings"] = [spelled]
+        # sometimes an empty row between the header row and the values: the settings are the first row that has a value
+        form["settings"] = [{}, spelled] if rng.random() < 0.15 and any(v != "" for v in spelled.values()) else [spelled]
     delivery = rng.choice(["dict", "dict", "md", "xlsx-path", "xlsx-bytes", "md-path", "md-path.txt", "md-path.MD", "md-path.", "xlsx-path.XLSX", "xlsx-path.dat", "xlsx-gap", "xlsx-gap"])
-    if delivery.startswith("md") and not forms.md_representable(form):
+    if delivery.startswith("md") and not forms.md_representable({sh: [{k: v for k, v in r.items() if v != ""} for r in rows] for sh, rows in form.items()}):
         delivery = "dict"
     stem = None
     return spelled, canon, attribute, form_name, dl, form, delivery, stem
@@ -248,7 +280,7 @@ def convert_delivery(form, delivery, form_name, dl, stem_name="My Survey_v2"):
     stem = None
     try:
         if delivery == "dict":
-            arg, kw = copy.deepcopy(forms.as_dict(form)), {}
+            arg, kw = copy.deepcopy(dict_of(form)), {}
         elif delivery == "md":
             arg, kw = forms.as_md(form), {"file_type": ".md"}
         elif delivery == "xlsx-bytes":
@@ -332,6 +364,10 @@ def _check(args):
         return {"i": i, "input": desc, "what": f"conversion failed: {st}: {str(r)[:200]}"}
     try:
         probs = compare(extract_header(r.xform), e)
+        both = "form_id" in spelled and "id_string" in spelled
+        warned = any("form_id and id_string column headers are both" in w for w in r.warnings)
+        if both != warned:
+            probs.append(f"form_id and id_string headers both present: {both}, warning about it: {warned}")
         # no leak: drop one setting, only its own places may change
         if canon and not probs and rng.random() < 0.5:
             drop = rng.choice([k for k, _ in canon])
